@@ -106,3 +106,14 @@ Proof.
   unfold submit_cores_check, self_with. rewrite py_dict_get_s.
   destruct (assoc "cores" rd) as [v|]; cbn; [destruct (is_none v)|]; reflexivity.
 Qed.
+
+(* plot_dependency_graph=True needs the dependency resolver: with disable_dependencies=True the
+   constructor refuses (whatever backend, limits, block allocation, init function) instead of
+   returning an executor that would execute the calls *)
+Lemma plot_without_dependencies_refused rr cpu mw b cd mc hl block f :
+  Executor_new rr cpu VNone mw (VStr b) cd mc VNone VNone VNone (VBool false) VNone hl block f
+               (VBool true) FLOAT (VBool true) = Err "ValueError".
+Proof.
+  unfold Executor_new. cbn.
+  destruct (str_containsb "_submission" b); reflexivity.
+Qed.
